@@ -56,6 +56,11 @@ func (c *verifCarrier) Close() error {
 	c.closeCnt++
 	if c.closeCnt == 1 {
 		close(c.closed)
+		// a carrier's own Close may report an error ("use of closed network connection"):
+		// that is neither a Close of the RedialPacketConn nor a failed dial
+		if verifapi.Param("close_errs", 0) == 1 && verifapi.Bool("carrier.closeFails") {
+			return verifErrCarrier
+		}
 	}
 	return nil
 }
@@ -83,6 +88,12 @@ func VerifC17_Redial() {
 		}
 		if n == maxDials {
 			<-stop // no more carriers until the conn is closed
+			if verifapi.Param("late_dial", 0) == 1 && verifapi.Bool("the dial in flight during Close succeeds") {
+				late := &verifCarrier{closed: make(chan struct{})}
+				carriers[n] = late // a carrier obtained after Close must be closed as well
+				n++
+				return late, nil
+			}
 			dialErr = true
 			return nil, verifErrCarrier
 		}
